@@ -216,6 +216,28 @@ func runGenesis(r *hx.R, n int, w *hx.W, _ []string) error {
 			pc := precompile.PrecompileAddr_FunToken
 			try("ft:sendToBank", func() error { _, e := ethTx(&pc, in, big.NewInt(0)); return e })
 		}
+		// a FunToken mapping whose ERC20 has self-destructed since: DeleteAccount removes the contract's account, code and storage
+		// but not the mapping, which export and import have to carry over like any other
+		if r.Chance(1, 2) {
+			nonce := k.GetAccNonce(ctx, sender)
+			kc := easm.New()
+			kc.Op(easm.CALLDATASIZE, easm.ISZERO).JumpiTo("kill")
+			kc.Push(0x20).Push(0).Op(easm.MSTORE).Push(3).Push(0x20).Op(easm.MSTORE)
+			kc.PushBytes(append([]byte("TKN"), make([]byte, 29)...)).Push(0x40).Op(easm.MSTORE)
+			kc.Push(0x60).Push(0).Op(easm.RETURN)
+			kc.Label("kill").Push(0).Op(easm.SUICIDE)
+			try("evm:killable", func() error { _, e := ethTx(nil, easm.Deployer(kc.Bytes()), big.NewInt(0)); return e })
+			killable := crypto.CreateAddress(sender, nonce)
+			try("ft:createerc20-killable", func() error {
+				cctx, write := ctx.CacheContext()
+				_, e := k.CreateFunToken(sdk.WrapSDKContext(cctx), &evm.MsgCreateFunToken{FromErc20: &eth.EIP55Addr{Address: killable}, Sender: deps.Sender.NibiruAddr.String()})
+				if e == nil {
+					write()
+				}
+				return e
+			})
+			try("evm:kill", func() error { _, e := ethTx(&killable, nil, big.NewInt(0)); return e })
+		}
 		// ---- tokenfactory
 		tfMsg := a1.TokenFactoryKeeper
 		for i := 0; i < r.Pick(3); i++ {
